@@ -113,6 +113,23 @@ def Val.pyStr : Val → Str
   | .int i => intStr i
   | .str s => s
 
+/-! ### gauge adapters that change the command (`GaugeAdapter.acquire_command`) -/
+
+/-- what `acquire_command` does with `cmdline_for_next_invocation()`:
+* `plain` — the default (`interop/adapter.py:42-43`; RebenchLog, TimeManual, JMH, …, and
+  custom adapters that inherit it),
+* `time formatted bin` — `TimeAdapter._create_command` (`interop/time_adapter.py:49-56`)
+  after `_check_which_time_command_is_available` decided,
+* `perf command recordArgs reportArgs` — `PerfAdapter.acquire_command`
+  (`interop/perf_adapter.py:20-23`) with `PerfProfiler.command` / `.record_args` /
+  `.report_args` (`model/profiler.py:43-51`); after a successful recording `parse_data` starts
+  the report step (`model/profiler.py:88-97`). -/
+inductive Adapter where
+  | plain
+  | time (formatted : Bool) (bin : Str)
+  | perf (command recordArgs reportArgs : Str)
+deriving DecidableEq, Repr
+
 /-- the raw configuration of one run as far as C03 is concerned -/
 structure Run where
   benchCommand : Str          -- `benchmark.command`
@@ -133,6 +150,7 @@ structure Run where
   locationRaw : Option Str
   env : Env                   -- effective `env:` map (C02 decides which level wins)
   invocations : Nat
+  adapter : Adapter := .plain  -- the run's gauge adapter as far as `acquire_command` goes
 deriving Repr
 
 /-- `"%(invocation)s"` -/
@@ -351,6 +369,43 @@ def popenEnv (parent : Env) : Option Env → Env
   | none => parent
   | some e => e
 
+/-! ### `acquire_command` -/
+
+def usrBinTime : Str := ['/', 'u', 's', 'r', '/', 'b', 'i', 'n', '/', 't', 'i', 'm', 'e']
+def gtimeBin : Str := ['/', 'o', 'p', 't', '/', 'l', 'o', 'c', 'a', 'l', '/', 'b', 'i', 'n', '/', 'g', 't', 'i', 'm', 'e']
+
+/-- `TimeAdapter.time_format`, with its double quotes and line feeds -/
+def timeFormat : Str := ['"', 'm', 'a', 'x', ' ', 'r', 's', 's', ' ', '(', 'k', 'b', ')', ':', ' ', '%', 'M', '\n', 'w', 'a', 'l', 'l', '-', 't', 'i', 'm', 'e', ' ', '(', 's', 'e', 'c', 'o', 'u', 'n', 'd', 's', ')', ':', ' ', '%', 'e', '\n', '"']
+/-- the same as the shell hands it to `time` (quotes removed) -/
+def timeFormatArg : Str := ['m', 'a', 'x', ' ', 'r', 's', 's', ' ', '(', 'k', 'b', ')', ':', ' ', '%', 'M', '\n', 'w', 'a', 'l', 'l', '-', 't', 'i', 'm', 'e', ' ', '(', 's', 'e', 'c', 'o', 'u', 'n', 'd', 's', ')', ':', ' ', '%', 'e', '\n']
+
+/-- `_check_which_time_command_is_available` (`time_adapter.py:65-87`): exit status of
+`/usr/bin/time -f … /bin/sleep 0` and, only if that is 1 (also on `OSError`), of the same with
+`/opt/local/bin/gtime`; `none` = `OSError`.  Returns (`_use_formatted_time`, `_time_bin`). -/
+def timeDecision (rc1 rc2 : Option Int) : Bool × Str :=
+  let r1 : Int := rc1.getD 1
+  if r1 = 1 then
+    match rc2 with
+    | some r2 => (r2 = 0, if r2 = 0 then gtimeBin else usrBinTime)
+    | none => (false, usrBinTime)
+  else (r1 = 0, usrBinTime)
+
+/-- the text `acquire_command` returns for the command text `cmd` -/
+def acquire (a : Adapter) (cmd : Str) : Str :=
+  match a with
+  | .plain => cmd
+  | .time false _ => usrBinTime ++ [' ', '-', 'p', ' '] ++ cmd
+  | .time true bin => bin ++ [' ', '-', 'f', ' '] ++ timeFormat ++ [' '] ++ cmd
+  | .perf c ra _ => c ++ [' '] ++ ra ++ [' '] ++ cmd
+
+/-- the words the wrapper puts in front of the command's own words -/
+def wrapperArgv (a : Adapter) : List Str :=
+  match a with
+  | .plain => []
+  | .time false _ => [usrBinTime, ['-', 'p']]
+  | .time true bin => [bin, ['-', 'f'], timeFormatArg]
+  | .perf c ra _ => words (c ++ [' '] ++ ra)
+
 structure Launch where
   text : Str               -- handed to `sh -c`
   argv : List Str          -- what the process receives (shell-safe alphabet)
@@ -359,12 +414,12 @@ structure Launch where
 deriving Repr, DecidableEq
 
 /-- start of the invocation after `completed` recorded ones
-(`executor.py:528-553`, `adapter.py:42-43`, `subprocess_with_timeout.py:66-68`) -/
+(`executor.py:528-553`, `acquire_command` of the run's adapter, `subprocess_with_timeout.py:66-68`) -/
 def launch (w : World) (r : Run) (completed : Nat) : Res Launch :=
   match nextText w.cwd r (completed + 1), location w.cwd r with
   | some t, some loc =>
-    .ok { text := expandUserLine w true t,
-          argv := (words t).map (expandWord w),
+    .ok { text := acquire r.adapter (expandUserLine w true t),
+          argv := wrapperArgv r.adapter ++ (words t).map (expandWord w),
           cwd := loc.map (expanduser w),
           env := popenEnv w.parent (some (runEnv w r)) }
   | _, _ => .uiError
@@ -372,19 +427,31 @@ def launch (w : World) (r : Run) (completed : Nat) : Res Launch :=
 /-! ## 6. Sessions: starts, plan -/
 
 inductive Outcome where
-  | ok      -- the invocation delivered data and is recorded
-  | fail    -- nothing recorded
+  | ok          -- the invocation delivered data and is recorded
+  | fail        -- the benchmark process failed: nothing recorded
+  | failReport  -- profiling only: the recording succeeded, the report step did not
 deriving DecidableEq, Repr
 
 inductive Event where
   | start (run : Nat) (inv : Nat) (l : Launch)
+  | report (run : Nat) (inv : Nat) (l : Launch)   -- the profiler's report step
   | append (run : Nat) (inv : Nat)
   | plan (run : Nat) (cd : Option Str) (cmd : Str)
   | uiError (run : Nat)
 deriving Repr, DecidableEq
 
-/-- one run inside an executing session: every outcome is one process start;
-returns the events and the new number of completed invocations -/
+/-- the report step of a profile run (`PerfProfiler.process_profile` with `-D`): `command
+report_args` through the shell, in the working directory and environment of the recording -/
+def reportEvents (r : Run) (id inv : Nat) (l : Launch) : List Event :=
+  match r.adapter with
+  | .perf c _ rep =>
+    let text := c ++ [' '] ++ rep
+    [.report id inv { text := text, argv := words text, cwd := l.cwd, env := l.env }]
+  | _ => []
+
+/-- one run inside an executing session: every outcome is one benchmark process start
+(plus the report step of a profile run); returns the events and the new number of
+completed invocations -/
 def runStarts (w : World) (r : Run) (id : Nat) : Nat → List Outcome → List Event × Nat
   | c, [] => ([], c)
   | c, o :: os =>
@@ -393,10 +460,13 @@ def runStarts (w : World) (r : Run) (id : Nat) : Nat → List Outcome → List E
       match o with
       | .ok =>
         let (ev, c') := runStarts w r id (c + 1) os
-        (.start id (c + 1) l :: .append id (c + 1) :: ev, c')
+        (.start id (c + 1) l :: (reportEvents r id (c + 1) l ++ .append id (c + 1) :: ev), c')
       | .fail =>
         let (ev, c') := runStarts w r id c os
         (.start id (c + 1) l :: ev, c')
+      | .failReport =>
+        let (ev, c') := runStarts w r id c os
+        (.start id (c + 1) l :: (reportEvents r id (c + 1) l ++ ev), c')
     | _ => ([.uiError id], c)
 
 /-- the plan entry of one run (`executor.py:474-485`) -/
